@@ -33,6 +33,12 @@ def handle (toks : List String) (impl : String) : Verdict :=
     | some b =>
       { model := some (Driver.CertShow.certLine b),
         oracle := if impl = "panic" then some "Cert::decode or an accessor of the decoded certificate panicked" else none }
+  | ["cmsd", ty, h] =>
+    match (parseHex h).map (·.map UInt8.toNat) with
+    | none => badOp "hex"
+    | some b =>
+      { model := some (Driver.CertShow.cmsLine ty b),
+        oracle := if impl = "panic" then some "SignedObject / Roa / Aspa / Manifest ::decode or an accessor panicked" else none }
   | _ => badOp "unknown op"
 
 end Driver.C04
